@@ -401,7 +401,7 @@ def process_state():
     import warnings
     return {'sys_path': list(sys.path), 'recursion_limit': sys.getrecursionlimit(), 'cwd': os.getcwd(),
             'sigpipe': repr(signal.getsignal(signal.SIGPIPE)), 'sigint': repr(signal.getsignal(signal.SIGINT)),
-            'locale': list(locale.getlocale()), 'warning_filters': len(warnings.filters),
+            'locale': list(locale.getlocale()), 'warning_filters': [[f[0], str(f[1]), getattr(f[2], '__name__', str(f[2])), str(f[3]), f[4]] for f in warnings.filters],
             'stdout_is_original': sys.stdout is sys.__stdout__ or not getattr(sys.stdout, 'closed', False),
             'environ': core.digest(sorted(os.environ.items()))}
 
@@ -426,6 +426,7 @@ def child_enumerate(sc):
     n = len(sc['ops'])
     stack = [[]]
     explored = 0
+    ps_before = process_state()
     cap = sc.get('max_schedules', 3000)
     bad = None
     while stack and explored < cap:
@@ -450,6 +451,10 @@ def child_enumerate(sc):
                 if core.canon(outs[i]) != core.canon(sc['refs'][i]):
                     bad = {'thread': i, 'picks': prefix, 'outcome': outs[i], 'schedule': ''.join(str(e[1]) for e in log.events)}
                     break
+            if bad is None:
+                changed = sorted(k for k, v in process_state().items() if ps_before[k] != v)
+                if changed:
+                    bad = {'thread': 0, 'picks': prefix, 'outcome': ['process state changed', changed], 'schedule': ''.join(str(e[1]) for e in log.events)}
             if bad is not None:
                 break
     return {'explored': explored, 'complete': not stack and bad is None, 'bad': bad, 'state': module_state(t)}
@@ -464,6 +469,7 @@ def child_interleaved(sc):
         trace_files = (t.engine.__file__, '<main loop>', t.csv.__file__)
     baton = Baton(n, sc['picks'], log, max_yields=20000, line_every=sc.get('line_every'), trace_files=trace_files)
     outs = [None] * n
+    ps_before = process_state()
 
     def mk(i):
         def fn():
@@ -488,7 +494,8 @@ def child_interleaved(sc):
             if len(mid) >= 2:
                 overlap_switches += 1
     return {'outcomes': outs, 'sched': ''.join(str(x) for x in sched), 'switches': baton.switches, 'overlap_switches': overlap_switches,
-            'yields': baton.yields, 'errors': baton.errors, 'state': module_state(t)}
+            'yields': baton.yields, 'errors': baton.errors, 'state': module_state(t),
+            'process_state_changed': sorted(k for k, v in process_state().items() if ps_before[k] != v)}
 
 
 # ----------------------------------------------------------------------------- references
@@ -655,6 +662,8 @@ def execute(sc):
             break
     if res['verdict'] == 'ok' and obs['state'] != [False, False]:
         res.update(verdict='violation', oracle='module_state', detail={'debug_flags': obs['state']})
+    if res['verdict'] == 'ok' and obs.get('process_state_changed'):
+        res.update(verdict='violation', oracle='process_state', detail={'changed': obs['process_state_changed'], 'kind': kinds[0], 'others': kinds[1:], 'schedule': obs['sched'][:200]})
     res['digest'] = core.digest([obs, refs])
     return res
 
